@@ -289,7 +289,7 @@ RespInfo(sp) ==
     [k \in 1..Len(sp.resp) |->
        LET r == sp.resp[k]
            rq == Fr(r.req)
-           an == Fr(r.ans)
+           an == IF r.ans = 0 THEN <<>> ELSE Fr(r.ans)
            p == Wr!ParseRequest(r.fr, rq)
        IN IF ~p.ok THEN [first |-> 0, count |-> 0, unit |-> 2, p |-> 0, pl |-> <<>>]
           ELSE IF r.fr = "aa55" /\ p.op = "raw"
@@ -300,9 +300,49 @@ RespInfo(sp) ==
                          ELSE IF Len(an) >= Wr!Expected(cmd, an) THEN Wr!Payload(cmd, an) ELSE <<>>
                IN [first |-> p.reg, count |-> p.n, unit |-> 2, p |-> 0, pl |-> pl]]
 
+(***************************************************************************)
+(* API-level clauses (C14 C15 C16 C18) on the same spans                   *)
+(***************************************************************************)
+\* C14: every value reported for a listed sensor was decoded from bytes that were actually fetched
+NeedsBytes(e) == IF e.ty = "EnumBitmap22" THEN 2 ELSE Size(e.ty)
+JudgeWindow(sp) ==
+    IF ~sp.modbus \/ ~sp.ok \/ sp.single THEN {}
+    ELSE LET tab == Tables[sp.tab] IN
+         UNION {LET e == tab[k] IN
+                IF ~TabLast[sp.tab][k] \/ ~Has(sp, e.id) \/ NeedsBytes(e) = 0 THEN {}
+                ELSE IF Holding(sp, e.addr, NeedsBytes(e)) # {}
+                        /\ (e.ty = "EnumBitmap22" => Holding(sp, e.addrL, 2) # {}) THEN {}
+                ELSE {"C14.Window:" \o e.id}
+                : k \in 1..Len(tab)}
+
+\* C15: keys of the result = ids of sensors() right after the call; success no later than the second call
+JudgeKeys(sp) ==
+    IF sp.api # "runtime" THEN {}
+    ELSE IF ~sp.ok THEN (IF sp.prevFailed THEN {"C15.SecondCall"} ELSE {})
+    ELSE LET ids == {Tables[sp.tab][k].id : k \in 1..Len(Tables[sp.tab])} IN
+         IF DOMAIN sp.res = ids THEN {} ELSE {"C15.KeysEqSensors"}
+
+\* C18: monitoring calls transmit read requests only; setters with invalid arguments transmit no write
+Writes(sp0) == {k \in 1..Len(sp0.resp) : Wr!IsWriteRequest(sp0.resp[k].fr, Fr(sp0.resp[k].req))}
+JudgeReadOnly(sp0) ==
+    (IF sp0.ro /\ Writes(sp0) # {} THEN {"C18.ReadOnly:" \o sp0.call} ELSE {})
+    \cup (IF sp0.guard /\ Writes(sp0) # {} THEN {"C18.GuardFirst:" \o sp0.call} ELSE {})
+    \cup (IF sp0.guard /\ sp0.documented /\ ~(~sp0.ok /\ sp0.exc = "ValueError") THEN {"C18.ValueError:" \o sp0.call} ELSE {})
+
+\* C16: read_sensor(id) of a listed id: the bulk value, or ValueError where the bulk value is None
+JudgeSameAsBulk(sp) ==
+    IF ~sp.single \/ sp.bulk.k = "absent" THEN {}
+    ELSE LET e == Tables[sp.tab][sp.entry] IN
+         IF sp.ok THEN (IF sp.bulk.k = "coarse" \/ sp.res[e.id].k = "coarse" \/ ValEq(sp.bulk, sp.res[e.id]) THEN {}
+                        ELSE {"C16.SameAsBulk:" \o e.id})
+         ELSE IF sp.exc = "ValueError" /\ ~sp.unknown THEN (IF sp.bulk.k = "none" THEN {} ELSE {"C16.SameAsBulk:" \o e.id})
+         ELSE IF sp.failed THEN {}                      \* the request itself failed: nothing to compare
+         ELSE {"C16.Resolvable:" \o e.id}
+
 Judge(sp0) ==
     LET sp == [sp0 EXCEPT !.resp = RespInfo(sp0)] IN
-    IF sp.single THEN JudgeSingle(sp) ELSE JudgeBulk(sp)
+    (IF sp.decode THEN (IF sp.single THEN JudgeSingle(sp) ELSE JudgeBulk(sp)) ELSE {})
+    \cup JudgeWindow(sp) \cup JudgeKeys(sp) \cup JudgeReadOnly(sp0) \cup JudgeSameAsBulk(sp)
 
 VARIABLES sid, done
 vars == <<sid, done>>
